@@ -140,9 +140,12 @@ def check_loaded(where, raw, loaded, load_status, warn, written, truth, long_ok=
                 raise Violation("%s: record for %r loaded as %r, file says %r (last record must win)" % (where, name, have, want))
         else:
             # damaged / merged line came last for this output: it may only look out of date
-            t = truth.get(name)
-            if t is not None and g['hash'] == t['hash'] and g['mtime'] > t['mtime']:
-                raise Violation("%s: damaged line makes %r look newer than it is with the right command hash: %r vs true %r" % (where, name, g, t))
+            # (a merged line whose tail is a complete genuine record - only the start/end fields absorbed the torn bytes -
+            # carries exactly that record's mtime and hash, which is fine)
+            same_hash = [m for (h_, m) in truth.get(('history', name), []) if h_ == g['hash']]
+            if same_hash and g['mtime'] > max(same_hash):
+                raise Violation("%s: damaged line makes %r look newer than it ever was with a genuine command hash: loaded %r, genuine records with that hash have mtimes %r"
+                                % (where, name, g, sorted(set(same_hash))))
     for name in got:
         if name not in exp:
             raise Violation("%s: entry for %r loaded but no complete line names it" % (where, name))
@@ -245,6 +248,7 @@ def run_history(probe, h):
                         o = names[i]
                         written.add(fmt_line(op['start'], op['end'], op['mtime'], o, r['hash']))
                         truth[o] = dict(hash=r['hash'], mtime=op['mtime'])
+                        truth.setdefault(('history', o), []).append((r['hash'], op['mtime']))
                     if tore_inside:
                         appended_after_tear = True
                 if op['rep'] >= 40:
@@ -312,6 +316,7 @@ def run_history(probe, h):
                     f = ln.split(b"\t")
                     if len(f) >= 5 and f[3] in truth:
                         truth[f[3]] = dict(hash="%016x" % int(f[4], 16), mtime=int(f[2]))
+                        truth.setdefault(('history', f[3]), []).append(("%016x" % int(f[4], 16), int(f[2])))
                 labels.add('restat_subset' if sel else 'restat_all')
                 nxt('close')
                 nxt('open')
